@@ -79,6 +79,10 @@ def one_query_dir(ctx, res, rng, k):
         a, b = sorted(files)[:2]
         files[a] = files[a].rstrip("\n") + "\n\n- 200101#c0 upper #CaseTag %Bob +Proj @Ctx Due::friday\n"
         files[b] = files[b].rstrip("\n") + "\n\n- 200101#c1 lower #casetag %bob +proj @ctx due::monday\no 200101#c2 mixed #CASETAG %BOB DUE::never\n"
+    if k % 5 == 2:
+        # a page in DOS format (every note has its ZID already, so zorg never rewrites it): the line ends inside a multi-line
+        # note are part of its body
+        files["dos.zo"] = "# DOS page\r\n\r\n- 200101#d0 first line #dos\r\n  * bullet one\r\n  second line\r\no P2 200101#d1 todo\r\n  more\r\nx 200101#d2 single\r\n"
     G.write_dir(zdir, files)
     Z.clear_engine_cache()
     with freeze_time(dt.datetime(*TODAY, 12, 0)):
@@ -108,7 +112,7 @@ def one_query_dir(ctx, res, rng, k):
         written = {}
         for pth in sorted(zdir.rglob("*.zo")):
             if ".zorg" not in pth.parts:
-                comp = ZC.impl_compile(ctx.tmp / "w", "p.zo", pth.read_text(), TODAY)
+                comp = ZC.impl_compile(ctx.tmp / "w", "p.zo", pth.open(newline="").read(), TODAY)
                 for n in comp.get("notes", []):
                     if n["zid"]:
                         written[n["zid"]] = n["body"]
@@ -141,7 +145,7 @@ def one_query_dir(ctx, res, rng, k):
             zoq.parent.mkdir(exist_ok=True)
             zoq.write_text(f"# {q}\n")
             refresh_zoq_file(zdir, url, zoq)
-            for label, text in (("swog.execute output under a header", "# results\n\n" + out + "\n"), ("refreshed .zoq page", zoq.read_text() + "\n")):
+            for label, text in (("swog.execute output under a header", "# results\n\n" + out + "\n"), ("refreshed .zoq page", zoq.open(newline="").read() + "\n")):
                 back = ZC.impl_compile(ctx.tmp / "b", "p.zo", text, TODAY)
                 res.evaluations += 1
                 if "exc" in back or back["errors"]:
